@@ -1,5 +1,5 @@
 """C18 - The compiler is total: it never panics or hangs."""
-import json, os, sys, collections, subprocess, time
+import json, re, os, sys, collections, subprocess, time
 from . import common as C, solvers as S
 
 STAGES = ["parse", "render", "format", "reparse_formatted", "type_check", "transform", "model_to_string", "linearize", "linear_to_string", "standardize", "solve"]
@@ -52,7 +52,9 @@ def run(ctx):
                     failures.append({"prop": "C18", "kind": "no-answer", "class": "unclassified", "stage": "?", "input": it["text"]})
                     continue
                 if r.get("status") in ("timeout", "abort"):
-                    failures.append({"prop": "C18", "kind": "hang" if r["status"] == "timeout" else "abort", "class": "unclassified", "stage": "compile stages (parse..standardize)" if k == 0 else "solve", "input": it["text"],
+                    # a product of a sum with many constant sums: Exp::flatten distributes every factor (finding F55)
+                    cls = "product-of-constant-sums-distributed" if (r["status"] == "timeout" and k == 0 and re.search(r"\(\w+ \+ 1\)( \* \(1 \+ 1\)){16,}", it["text"])) else "unclassified"
+                    failures.append({"prop": "C18", "kind": "hang" if r["status"] == "timeout" else "abort", "class": cls, "stage": "compile stages (parse..standardize)" if k == 0 else "solve", "input": it["text"],
                                      "message": "no answer within the watchdog limit" if r["status"] == "timeout" else "the process died (abort, stack overflow or out of memory)"})
                     continue
                 for st, val in r.items():
